@@ -410,7 +410,9 @@ func (h *HttpServer) addCorsHeaders(w http.ResponseWriter, r *http.Request, isOp
 		}
 		// A browser client that cannot read these is back to guessing the
 		// rejection from the body, so they must be exposed cross-origin.
-		expose = append(expose, HeaderAuthReason)
+		// Retry-After rides the 503 an unavailable authenticator answers and the
+		// introspection 429/503; it is not CORS-safelisted either.
+		expose = append(expose, HeaderAuthReason, "Retry-After")
 		if len(h.proxyAuthHeaders()) > 0 {
 			expose = append(expose, HeaderAuthProxyRequired)
 		}
